@@ -371,15 +371,16 @@ class SimRawIn(io.RawIOBase):
         return self.s.readinto(memoryview(b).cast("B"))
 
     def fileno(self):
-        raise io.UnsupportedOperation("simulated stdin has no descriptor")
+        return 0  # reads of descriptor 0 through os.read / open(0) / select are routed here (install_fd_seams)
 
     def isatty(self):
         return False
 
 
 class SimRawOut(io.RawIOBase):
-    def __init__(self, sink):
+    def __init__(self, sink, fd=None):
         self.sink = sink
+        self._fd = fd
 
     def writable(self):
         return True
@@ -388,7 +389,9 @@ class SimRawOut(io.RawIOBase):
         return self.sink(bytes(b))
 
     def fileno(self):
-        raise io.UnsupportedOperation("simulated stdout has no descriptor")
+        if self._fd is None:
+            raise io.UnsupportedOperation("simulated stream has no descriptor")
+        return self._fd
 
     def isatty(self):
         return False
@@ -440,14 +443,102 @@ def make_streams(session, stdin_errors="surrogateescape"):
     buf._session = session
     stdin = SimStdin(buf, encoding="utf-8", errors=stdin_errors, newline=None)
     stdin._session = session
-    rout = SimRawOut(session.write_out)
+    rout = SimRawOut(session.write_out, 1)
     stdout = io.TextIOWrapper(io.BufferedWriter(rout, 8192), encoding="utf-8", errors="strict", newline=None,
                               line_buffering=False, write_through=False)
 
-    rerr = SimRawOut(session.write_err)
+    rerr = SimRawOut(session.write_err, 2)
     session.streams["stdin"] = [stdin, stdin.buffer, rin]
     session.streams["stdout"] = [stdout, stdout.buffer, rout]
     stderr = io.TextIOWrapper(io.BufferedWriter(rerr, 8192), encoding="utf-8", errors="backslashreplace",
                               newline=None, line_buffering=True, write_through=False)
     session.streams["stderr"] = [stderr, stderr.buffer, rerr]
     return stdin, stdout, stderr
+
+
+def install_fd_seams(world, session, stdin, stdout, stderr):
+    """Descriptor-level access to the daemon's standard streams: os.read(0), os.write(1|2), open(0|1|2, ...),
+    os.fdopen(0|1|2), select.select on them.  They reach the same simulated pipes as sys.stdin / sys.stdout."""
+    import builtins
+    import os
+    import select
+
+    real_read, real_write = os.read, os.write
+    raw_in = stdin.buffer.raw
+
+    def sim_read(fd, n):
+        if fd == 0:
+            buf = bytearray(n)
+            k = session.readinto(memoryview(buf))
+            return bytes(buf[:k])
+        return real_read(fd, n)
+
+    def sim_write(fd, data):
+        if fd == 1:
+            return session.write_out(bytes(data))
+        if fd == 2:
+            return session.write_err(bytes(data))
+        return real_write(fd, data)
+
+    os.read, os.write = sim_read, sim_write
+
+    def layer(fd, mode, buffering, kw):
+        text = "b" not in mode
+        if fd == 0:
+            if "r" not in mode and "+" not in mode:
+                raise OSError(9, "Bad file descriptor")
+            if not text:
+                return raw_in if buffering == 0 else stdin.buffer
+            if not kw.get("encoding") and not kw.get("errors") and kw.get("newline") is None:
+                return stdin
+            w = SimStdin(stdin.buffer, encoding=kw.get("encoding") or "utf-8", errors=kw.get("errors") or stdin.errors, newline=kw.get("newline"))
+            w._session = session
+            return w
+        stream = stdout if fd == 1 else stderr
+        if not text:
+            return stream.buffer.raw if buffering == 0 else stream.buffer
+        return io.TextIOWrapper(stream.buffer, encoding=kw.get("encoding") or "utf-8", errors=kw.get("errors") or "strict",
+                                newline=kw.get("newline"), line_buffering=(buffering == 1), write_through=False)
+
+    real_open, real_fdopen = builtins.open, os.fdopen
+
+    def sim_open(file, mode="r", buffering=-1, encoding=None, errors=None, newline=None, closefd=True, opener=None):
+        if isinstance(file, int) and not isinstance(file, bool) and file in (0, 1, 2):
+            world.probe("open-of-standard-descriptor")
+            return layer(file, mode, buffering, {"encoding": encoding, "errors": errors, "newline": newline})
+        return real_open(file, mode, buffering, encoding, errors, newline, closefd, opener)
+
+    def sim_fdopen(fd, mode="r", buffering=-1, encoding=None, *a, **k):
+        if isinstance(fd, int) and fd in (0, 1, 2):
+            return sim_open(fd, mode, buffering, encoding, *a, **k)
+        return real_fdopen(fd, mode, buffering, encoding, *a, **k)
+
+    builtins.open = sim_open
+    io.open = sim_open
+    os.fdopen = sim_fdopen
+
+    real_select = select.select
+
+    def is_stdin(x):
+        return x == 0 if isinstance(x, int) else session.stream_role(x) == "stdin"
+
+    def sim_select(rlist, wlist, xlist, timeout=None):
+        if not any(is_stdin(x) for x in rlist):
+            if any((isinstance(x, int) and x in (1, 2)) or (not isinstance(x, int) and session.stream_role(x)) for x in list(wlist)):
+                return [], list(wlist), []
+            return real_select(rlist, wlist, xlist, timeout)
+        others = [x for x in rlist if not is_stdin(x)]
+        if others:
+            raise_unmodelled("select.select on the standard input together with other descriptors")
+        if not session.poll_stdin():
+            if timeout is not None and timeout <= 0:
+                return [], list(wlist), []
+            session.blocks += 1
+            world.sched.block(on="stdin", timeout=timeout, stdin=True)
+        return ([x for x in rlist if is_stdin(x)] if session.poll_stdin() else []), list(wlist), []
+
+    def raise_unmodelled(what):
+        from .seams_base import Unmodelled
+        raise Unmodelled(what)
+
+    select.select = sim_select
